@@ -777,6 +777,17 @@ func c12Res() *vx.Result {
 			"printDiagnostics (stdout captured, text and json formatter) against a set-semantics model; non-trivial = multiset in which an " +
 			"'all' problem is dropped or a problem is printed under >= 2 build names")
 		c12Result.SetBudget(vx.Pick(75*time.Second, 17*time.Minute))
+		if i, _ := vx.Shard(); i == 0 {
+			for _, u := range []string{
+				"order of the printed lines: outputs are compared as multisets of lines; a pure line-order difference between two orders of the same runs is counted, not asserted (the statement fixes no line order)",
+				"rendering of the annotation: '[x,y]' is parsed into a set of names (no annotation = the unnamed build; '[,x]' = unnamed build and x); sorting and separator are not asserted",
+				"exit status of -merge/-matrix (depends on -fail) and the severity field of the json output are not part of the statement and not compared",
+				"pairing of build names with problems that differ only in End: the text format does not print End and json/sarif do not print build names, so a mix-up no format can show is counted (merge_result_differs_but_no_output_format_shows_it), not asserted",
+				"diagnostics with severity 'ignored', Related information and suggested fixes are outside the enumerated universe",
+			} {
+				c12Result.Unassert(u)
+			}
+		}
 	})
 	return c12Result
 }
@@ -872,11 +883,6 @@ func c12CheckMultiset(res *vx.Result, cp *c12Capture, u *c12Universe, seq []int,
 			c12Violate(res, "panic", u.describe(order), "the real code panicked: "+o.panic, nil)
 			return o, false
 		}
-		if o.pairs != wantPairs || o.alien != "" {
-			c12Violate(res, kind+"merge", u.describe(order), fmt.Sprintf(
-				"mergeRuns keeps the wrong (problem, build) pairs\n got:  %s %s\n want: %s", u.pairsString(o.pairs), o.alien, u.pairsString(wantPairs)), nil)
-			return o, false
-		}
 		if !c12EqStrings(o.text, wantText) && !c12TextSemEqual(o.text, wantText) {
 			c12Violate(res, kind+"print", u.describe(order), fmt.Sprintf(
 				"`staticcheck -merge` (text) prints\n%s\nbut set semantics (any: some run reported; all: every run that checked the file reported; "+
@@ -889,6 +895,23 @@ func c12CheckMultiset(res *vx.Result, cp *c12Capture, u *c12Universe, seq []int,
 				"`staticcheck -merge -f json` prints\n%s\nbut the merged problem set is\n%s",
 				c12Indent(o.jsonRaw), c12Indent(strings.Join(wantJSON, "\n"))), nil)
 			return o, false
+		}
+		if o.pairs != wantPairs || o.alien != "" {
+			// The merge proper disagrees with the model although the text output is right. Text
+			// does not show End and json does not show build names, so decide on the json
+			// output of this very order; what no output format can show is not asserted.
+			if !withJSON {
+				o2 := c12Observe(cp, u, u.realRuns(order), true)
+				if !c12EqStrings(o2.json, wantJSON) && !c12JSONSemEqual(o2.json, wantJSON) {
+					c12Violate(res, kind+"json", u.describe(order), fmt.Sprintf(
+						"`staticcheck -merge -f json` prints\n%s\nbut the merged problem set is\n%s",
+						c12Indent(o2.jsonRaw), c12Indent(strings.Join(wantJSON, "\n"))), nil)
+					return o, false
+				}
+			}
+			res.Count("merge_result_differs_but_no_output_format_shows_it", 1)
+			res.Unassert(fmt.Sprintf("mergeRuns yields (problem, build) pairs {%s %s}, the model {%s}, for %s; text and json output agree with the model, so nothing observable differs",
+				u.pairsString(o.pairs), o.alien, u.pairsString(wantPairs), c12Key(u.describe(order))))
 		}
 		return o, true
 	}
@@ -953,6 +976,7 @@ func (st *c12Stats) flush(res *vx.Result) {
 	res.Count("multisets_everything_dropped", st.emptyExpected)
 	if st.orderOnly > 0 {
 		res.Count("orders_with_same_lines_in_other_line_order", st.orderOnly)
+		res.Unassert("the order of the printed lines differed between two orders of the same runs (same lines as a multiset): the statement does not fix a line order, so this is counted, not asserted")
 	}
 	*st = c12Stats{}
 }
@@ -1101,7 +1125,9 @@ func TestVerifC12InProcess(t *testing.T) {
 			}
 			c12Enumerate(res, cp, sc.u, n, sc.repeat, workers)
 		}
-		res.Count("runs_in_universe_"+sc.u.name, int64(len(sc.u.runs)))
+		if i, _ := vx.Shard(); i == 0 {
+			res.Count("runs_in_universe_"+sc.u.name, int64(len(sc.u.runs)))
+		}
 		res.Bound = fmt.Sprintf("%s universe %s (%d candidate problems, %d distinct runs): all multisets of %d..%d runs in every order, repetition mode %d;",
 			res.Bound, sc.u.name, len(sc.u.cands), len(sc.u.runs), sc.minN, sc.maxN, sc.repeat)
 	}
